@@ -19,7 +19,7 @@ if [ ! -f $OUT/confirmed.txt ]; then
   DEMO=$(ls $SRC/demo/* | head -1)
   RUN=$(python3 -c "import json;print(json.load(open('$SRC/meta.json'))['demo_cmd'])")
   # use only the `go test`/`go run` part of the demo command
-  GOCMD=$(echo "$RUN" | grep -o "go \(test\|run\) .*" | tail -1 | sed 's/ 2>&1.*//; s/ |.*//')
+  GOCMD=$(echo "$RUN" | grep -o "go \(test\|run\) .*" | tail -1 | sed 's/ 2>&1.*//; s/ |.*//; s/   *(.*//')
   echo "cmd: $GOCMD" > $OUT/confirm.log
   for f in $SRC/demo/*; do d=$(head -6 $f | grep -m1 -io "$PAT" | head -1); [ -z "$d" ] && continue; d=${d#/}; mkdir -p $WT/$(dirname $d); cp $f $WT/$d; echo "demo $f -> $d" >> $OUT/confirm.log; done
   (cd $WT && timeout 600 bash -c "$GOCMD") > $OUT/demo_without.txt 2>&1; R0=$?
